@@ -584,7 +584,7 @@ func (inv *inventory) entriesAndTouches(rootSet map[string]bool) {
 	sort.Slice(inv.entries, func(i, j int) bool { return inv.entries[i].name < inv.entries[j].name })
 }
 
-var optRe = regexp.MustCompile(`(Options?|Config|Configs|Settings)$`)
+var optRe = regexp.MustCompile(`(Options?|Config)$`)
 
 func (inv *inventory) paramWrites(rootSet map[string]bool) {
 	a := inv.a
@@ -800,10 +800,10 @@ func (inv *inventory) lean() string {
 	}
 	sb.WriteString("]\n\n")
 	for _, r := range inv.rows {
-		fmt.Fprintf(&sb, "def row%d : Row := { id := %d, pkg := %s, name := %s, typ := %s, cat := .%s, initWrites := %d,\n", r.id, r.id, lstr(r.pkg), lstr(r.name), lstr(r.typ), r.cat, r.initWrites)
+		fmt.Fprintf(&sb, "def row%d : Row := {\n  id := %d, pkg := %s, name := %s, typ := %s, cat := Cat.%s, initWrites := %d,\n", r.id, r.id, lstr(r.pkg), lstr(r.name), lstr(r.typ), r.cat, r.initWrites)
 		var ws []string
 		for _, w := range r.writes {
-			ws = append(ws, fmt.Sprintf("{ fn := %d, kind := .%s, via := %s, once := %s, mutex := %s, count := %d }", fid(w.fn), w.kind, lstr(w.via), lopt(w.once), lopt(w.mu), w.count))
+			ws = append(ws, fmt.Sprintf("{ fn := %d, kind := WKind.%s, via := %s, once := %s, mutex := %s, count := %d }", fid(w.fn), w.kind, lstr(w.via), lopt(w.once), lopt(w.mu), w.count))
 		}
 		sort.Strings(ws)
 		fmt.Fprintf(&sb, "  writes := [%s],\n", strings.Join(ws, ",\n    "))
